@@ -600,3 +600,34 @@ Proof.
   - vm_compute. reflexivity.
   - exists (loc0, mkLoc 1 2 2 1). split; [vm_compute; auto | vm_compute; discriminate].
 Qed.
+
+(** * The formatter's end_loc (output side of the glyph map) *)
+(** current code: the column is the true column clamped at u16::MAX — exact whenever the line
+    of the formatted text has at most 65535 characters, and never beyond the true place *)
+Theorem end_loc_col_clamped cs :
+  col (end_loc true cs) = N.min (out_true_col cs) U16MAX /\
+  col (end_loc true cs) <= out_true_col cs /\
+  (out_true_col cs <= U16MAX -> col (end_loc true cs) = out_true_col cs).
+Proof. unfold end_loc. cbn [col]. repeat split; lia. Qed.
+
+Theorem end_loc_others_exact fixed cs :
+  nlen (filter is_nl cs) <= U16MAX -> nlen cs <= U32MAX -> seg_len cs <= U32MAX ->
+  line (end_loc fixed cs) = nlen (filter is_nl cs) /\ char_pos (end_loc fixed cs) = nlen cs /\
+  byte_pos (end_loc fixed cs) = seg_len cs.
+Proof.
+  intros Hl Hc Hb. unfold end_loc, wrap16, wrap32, seg_len in *. cbn [line char_pos byte_pos].
+  unfold U16MAX, U32MAX in *. rewrite !N.mod_small by lia. repeat split.
+Qed.
+
+Definition out_long_line : list chr := N.iter 65536 (cons (1, COther)) [].
+
+(** before 54c7366: a formatted line of 65536 characters ends at column 0 *)
+Theorem end_loc_wrap_refuted_pre :
+  exists cs, out_true_col cs = 65536 /\ col (end_loc false cs) = 0.
+Proof. exists out_long_line. split; vm_compute; reflexivity. Qed.
+
+(** current code on the same text: the column no longer wraps, but it is clamped to 65535 and
+    so still differs from the true column (remaining 16-bit limit of the output side) *)
+Theorem end_loc_saturation_refuted :
+  exists cs, col (end_loc true cs) = 65535 /\ col (end_loc true cs) <> out_true_col cs.
+Proof. exists out_long_line. split; vm_compute; [reflexivity | discriminate]. Qed.
